@@ -47,6 +47,8 @@ pub fn generate(prop: &str, seed: u64, tier: Tier) -> Program {
         },
         // one C10 program in ten is a network simulation that is paused and fed with messages from outside
         "C10" if rng.chance(1, 10) => Program::Net(net_gen::gen_c10_net(&mut rng, tier)),
+        // one C02 program in twelve is a network simulation (messages for past instants, handler clocks of deliveries)
+        "C02" if rng.chance(1, 12) => Program::Net(net_gen::gen_c02_net(&mut rng, tier)),
         "C02" | "C10" | "C11" => Program::Rt(rt::generate(prop, &mut rng, tier)),
         "C08" => Program::Net(net_gen::gen_c08(&mut rng, tier)),
         "C07" => Program::Net(net_gen::gen_c07(&mut rng, tier)),
@@ -228,6 +230,7 @@ fn execute_net(prop: &str, p: &net::NetProgram) -> RunInfo {
         "C12" => net_oracles::check_c12(p, &res, &mut info),
         "C14" => net_oracles::check_c14(p, &res, &mut info),
         "C03" => net_oracles::check_c03_net(p, &res, &mut info),
+        "C02" => net_oracles::check_c02_net(p, &res, &mut info),
         "C04" => {
             // same program, same seed, again in this process - for some programs while another thread of the process
             // sets up a simulation of its own (it has to wait for this one; nothing it does may show here)
